@@ -254,9 +254,9 @@ open Mirror in
 /-- C17 `cg_mirror_valid`: for every cutting-stock input the mirror's status is one of four, its
 objective is the number of rolls of its plan, every pattern of the plan fits the roll, and with
 a usable status (`OPTIMAL`/`FEASIBLE`) the plan passes the verified checker. -/
-theorem cg_mirror_valid (W : Nat) (sizes d : List Nat) (maxIter : Nat) (eps : Rat)
+theorem cg_mirror_valid (W : Nat) (sizes d : List Nat) (maxIter : Nat) (eps : Rat) (stop : Nat → Bool)
     (hpos : ∀ s ∈ sizes, 0 < s) :
-    let o := cgCuttingStock W sizes d maxIter eps
+    let o := cgCuttingStock W sizes d maxIter eps stop
     (o.status = "OPTIMAL" ∨ o.status = "FEASIBLE" ∨ o.status = "INFEASIBLE" ∨ o.status = "OverflowError") ∧
     o.total = rolls o.plan ∧ (∀ pc ∈ o.plan, Fits W sizes pc.1) ∧
     ((o.status = "OPTIMAL" ∨ o.status = "FEASIBLE") → checkPlan (fitsB W sizes) d o.plan o.total = true) := by
@@ -264,7 +264,7 @@ theorem cg_mirror_valid (W : Nat) (sizes d : List Nat) (maxIter : Nat) (eps : Ra
   have hfit : ∀ pc ∈ o.plan, Fits W sizes pc.1 := by
     intro pc hpc
     have := roundUp_mem _ _ _ pc hpc
-    exact csLoop_fit W sizes d eps hpos maxIter 0 _ (initPats_fit W sizes d) _ this
+    exact csLoop_fit W sizes d eps stop hpos maxIter 0 _ (initPats_fit W sizes d) _ this
   refine ⟨finishStatus_cases _ _ _ _ _ _, rfl, hfit, ?_⟩
   intro hu
   have hc := finishStatus_usable_covers _ _ _ _ _ hu
@@ -272,7 +272,7 @@ theorem cg_mirror_valid (W : Nat) (sizes d : List Nat) (maxIter : Nat) (eps : Ra
     ⟨⟨hfit, unmetB_false_covers _ _ hc⟩, rfl⟩
 
 -- non-vacuity: the only hypothesis is positivity of the sizes
-example := cg_mirror_valid 7 [2, 1] [1, 4] 1000 Solvor.Gen.Cut.cgEps (by decide)
+example := cg_mirror_valid 7 [2, 1] [1, 4] 1000 Solvor.Gen.Cut.cgEps (fun _ => false) (by decide)
 
 theorem ceil_sub_le_ceil (q eps : Rat) (h : 0 ≤ eps) : (q - eps).ceil ≤ q.ceil := by
   rw [Rat.ceil_le_iff]
@@ -285,13 +285,13 @@ feasible over all patterns (decided by the verified knapsack DP, evaluated by th
 input) and the mirror says `OPTIMAL`, then its plan is a true minimum.  Uses the mirror's actual
 status rule (`converged` flag, `rolls ≤ ⌈LP value − eps⌉`) and the exact identity
 `LP value = duals · d`. -/
-theorem cg_mirror_optimal_of_duals (W : Nat) (sizes d : List Nat) (maxIter : Nat) (eps : Rat)
+theorem cg_mirror_optimal_of_duals (W : Nat) (sizes d : List Nat) (maxIter : Nat) (eps : Rat) (stop : Nat → Bool)
     (hpos : ∀ s ∈ sizes, 0 < s) (heps : 0 ≤ eps) :
-    let o := cgCuttingStock W sizes d maxIter eps
+    let o := cgCuttingStock W sizes d maxIter eps stop
     dualFeasible W sizes o.duals = true → o.status = "OPTIMAL" →
     IsMinRolls (Fits W sizes) d o.total := by
   intro o hy hs
-  obtain ⟨_, htot, _, hchk⟩ := cg_mirror_valid W sizes d maxIter eps hpos
+  obtain ⟨_, htot, _, hchk⟩ := cg_mirror_valid W sizes d maxIter eps stop hpos
   have hv := ((plan_checker_cs W sizes d o.plan o.total).1 (hchk (Or.inl hs))).1
   obtain ⟨_, q, hq, hle⟩ := finishStatus_optimal _ _ _ _ _ _ hs
   have hq' : q = dotQ o.duals d := masterLP_value_eq_dual _ d eps q hq
@@ -308,7 +308,7 @@ theorem cg_mirror_optimal_of_duals (W : Nat) (sizes d : List Nat) (maxIter : Nat
 example : IsMinRolls (Fits 2 [1]) [3] 2 := by
   have h : let o := Mirror.cgCuttingStock 2 [1] [3] 1000 Solvor.Gen.Cut.cgEps
       dualFeasible 2 [1] o.duals = true ∧ o.status = "OPTIMAL" ∧ o.total = 2 := by decide +kernel
-  have := cg_mirror_optimal_of_duals 2 [1] [3] 1000 Solvor.Gen.Cut.cgEps (by decide) (by decide +kernel)
+  have := cg_mirror_optimal_of_duals 2 [1] [3] 1000 Solvor.Gen.Cut.cgEps (fun _ => false) (by decide) (by decide +kernel)
     h.1 h.2.1
   rwa [h.2.2] at this
 
@@ -316,12 +316,12 @@ open Mirror in
 /-- Variant for an arbitrary certificate `y` (the driver's scaled duals): mirror plan with usable
 status, `y` dual feasible, `rolls ≤ ⌈y·d⌉` ⇒ true minimum. -/
 theorem cg_mirror_optimal_of_bound (W : Nat) (sizes d : List Nat) (maxIter : Nat) (eps : Rat) (y : List Rat)
-    (hpos : ∀ s ∈ sizes, 0 < s) :
-    let o := cgCuttingStock W sizes d maxIter eps
+    (stop : Nat → Bool) (hpos : ∀ s ∈ sizes, 0 < s) :
+    let o := cgCuttingStock W sizes d maxIter eps stop
     dualFeasible W sizes y = true → (o.status = "OPTIMAL" ∨ o.status = "FEASIBLE") →
     (o.total : Int) ≤ dualBound y d → IsMinRolls (Fits W sizes) d o.total := by
   intro o hy hs hb
-  obtain ⟨_, htot, _, hchk⟩ := cg_mirror_valid W sizes d maxIter eps hpos
+  obtain ⟨_, htot, _, hchk⟩ := cg_mirror_valid W sizes d maxIter eps stop hpos
   have hv := ((plan_checker_cs W sizes d o.plan o.total).1 (hchk hs)).1
   have := optimal_claim_sound W sizes d y o.plan hpos hy hv (by
     rw [htot] at hb; simpa [claimsOptimal] using hb)
@@ -330,14 +330,15 @@ theorem cg_mirror_optimal_of_bound (W : Nat) (sizes d : List Nat) (maxIter : Nat
 open Mirror in
 /-- Custom mode (`_solve_custom` has no demand re-check): status, objective and admissibility hold
 for all inputs; coverage is what the verified checker decides per input. -/
-theorem cg_custom_mirror_valid_partial (cols init : List Pat) (d : List Nat) (maxIter : Nat) (eps : Rat) :
-    let o := cgCustom cols init d maxIter eps
+theorem cg_custom_mirror_valid_partial (cols init : List Pat) (d : List Nat) (maxIter : Nat) (eps : Rat)
+    (stop : Nat → Bool) :
+    let o := cgCustom cols init d maxIter eps stop
     (o.status = "OPTIMAL" ∨ o.status = "FEASIBLE" ∨ o.status = "INFEASIBLE" ∨ o.status = "OverflowError") ∧
     o.total = rolls o.plan ∧ (∀ pc ∈ o.plan, pc.1 ∈ init ∨ pc.1 ∈ cols) := by
   intro o
-  refine ⟨finishStatus_cases o.plan d o.lpObj eps (customLoop cols d eps maxIter 0 init).2.2 false, rfl, ?_⟩
+  refine ⟨finishStatus_cases o.plan d o.lpObj eps (customLoop cols d eps stop maxIter 0 init).2.2 false, rfl, ?_⟩
   intro pc hpc
-  exact customLoop_mem cols d eps maxIter 0 init _ (roundUp_mem _ _ _ pc hpc)
+  exact customLoop_mem cols d eps stop maxIter 0 init _ (roundUp_mem _ _ _ pc hpc)
 -- FULL STATEMENT (not proved): additionally, a usable status implies
 -- `checkPlan (inColsB (init ++ cols)) d o.plan o.total = true`.  That needs primal feasibility of
 -- the LP mirror's `x` (the code has no re-check in custom mode), and the mirror's eliminations
@@ -347,14 +348,14 @@ open Mirror in
 /-- Custom mode: checker verdict (decidable, per input) + dual feasibility over the explicit
 column list + `OPTIMAL` ⇒ true minimum. -/
 theorem cg_custom_mirror_optimal_of_duals (cols init : List Pat) (d : List Nat) (maxIter : Nat) (eps : Rat)
-    (heps : 0 ≤ eps) :
-    let o := cgCustom cols init d maxIter eps
+    (stop : Nat → Bool) (heps : 0 ≤ eps) :
+    let o := cgCustom cols init d maxIter eps stop
     checkPlan (inColsB cols) d o.plan o.total = true → dualFeasibleCols cols o.duals = true →
     o.status = "OPTIMAL" → IsMinRolls (InCols cols) d o.total := by
   intro o hchk hy hs
   have hv := ((plan_checker_cols cols d o.plan o.total).1 hchk).1
   obtain ⟨_, q, hq, hle⟩ := finishStatus_optimal o.plan d o.lpObj eps
-    (customLoop cols d eps maxIter 0 init).2.2 false hs
+    (customLoop cols d eps stop maxIter 0 init).2.2 false hs
   have hq' : q = dotQ o.duals d := masterLP_value_eq_dual _ d eps q hq
   have hb : (rolls o.plan : Int) ≤ dualBound o.duals d := by
     unfold dualBound
@@ -372,7 +373,7 @@ example : IsMinRolls (InCols [[2, 0], [0, 2], [1, 1]]) [3, 2] 3 := by
       dualFeasibleCols [[2, 0], [0, 2], [1, 1]] o.duals = true ∧ o.status = "OPTIMAL" ∧ o.total = 3 := by
     decide +kernel
   have := cg_custom_mirror_optimal_of_duals [[2, 0], [0, 2], [1, 1]] [[2, 0], [0, 2]] [3, 2] 1000
-    Solvor.Gen.Cut.cgEps (by decide +kernel) h.1 h.2.1 h.2.2.1
+    Solvor.Gen.Cut.cgEps (fun _ => false) (by decide +kernel) h.1 h.2.1 h.2.2.1
   rwa [h.2.2.2] at this
 
 /-- [S, partial] `master-LP mirror`: the LP value the mirror reports equals `duals · d` for the
@@ -418,15 +419,15 @@ a usable status carries a plan whose number of rolls is the objective; and — w
 converged column generation, or the incumbent does not exceed the lower bound
 `lb = ⌈root LP value − eps⌉` (`0` when the root did not converge). -/
 theorem bp_status_rule (solve : Solver) (cols0 : List Pat) (d : List Nat) (eps gapTol : Rat)
-    (maxIter maxNodes : Nat) (htol1 : gapTol ≤ 1) :
-    let o := bpRun solve cols0 d eps gapTol maxIter maxNodes
+    (maxIter maxNodes : Nat) (stop : Nat → Bool) (htol1 : gapTol ≤ 1) :
+    let o := bpRun solve cols0 d eps gapTol maxIter maxNodes stop
     (o.status = "OPTIMAL" ∨ o.status = "FEASIBLE" ∨ o.status = "INFEASIBLE") ∧
     ((o.status = "OPTIMAL" ∨ o.status = "FEASIBLE") → ∃ p, o.plan = some p ∧ o.total = rolls p) ∧
     (o.status = "OPTIMAL" → gapTol * (o.total : Rat) ≤ 1 →
       (o.rootIntegral = true ∧ o.rootConverged = true) ∨ ((o.total : Int) ≤ o.lb)) ∧
     (∀ q, (solve cols0 []).obj = some q → o.lb = if o.rootConverged then (q - eps).ceil else 0) := by
   intro o
-  obtain ⟨h1, h2, h3, _, _, h6, _⟩ := bpRun_rule solve cols0 d eps gapTol maxIter maxNodes o rfl
+  obtain ⟨h1, h2, h3, _, _, h6, _⟩ := bpRun_rule solve cols0 d eps gapTol maxIter maxNodes stop o rfl
   refine ⟨h1, h2, ?_, h6⟩
   intro hs htol2
   rcases h3 hs with h | ⟨_, p, hp, hg⟩
@@ -445,14 +446,14 @@ example : (Mirror.bpRun (fun cols _ => ⟨cols, [1], [1], some 1, 0⟩) [[1]] [1
 open Mirror in
 /-- Generic core of `bp_mirror_optimal_of_duals`. -/
 theorem bp_optimal_core (Feas : Pat → Prop) (pr : Pricer) (cols0 : List Pat) (d : List Nat) (eps gapTol : Rat)
-    (maxIter maxNodes : Nat) (heps : 0 ≤ eps) (htol1 : gapTol ≤ 1)
-    (o : BpOut) (ho : bpRun (nodeLP pr d eps maxIter) cols0 d eps gapTol maxIter maxNodes = o)
+    (maxIter maxNodes : Nat) (stop : Nat → Bool) (heps : 0 ≤ eps) (htol1 : gapTol ≤ 1)
+    (o : BpOut) (ho : bpRun (nodeLP pr d eps maxIter) cols0 d eps gapTol maxIter maxNodes stop = o)
     (hs : o.status = "OPTIMAL") (htol2 : gapTol * (o.total : Rat) ≤ 1)
     (hv : ∀ p, o.plan = some p → ValidPlan Feas d p)
     (hcert : ∀ plan', ValidPlan Feas d plan' → dualBound o.rootDuals d ≤ (rolls plan' : Int))
     (hside : o.rootIntegral = true → ∀ q, o.rootObj = some q → (o.total : Int) ≤ (q - eps).ceil) :
     IsMinRolls Feas d o.total := by
-  obtain ⟨_, h2, h3, h4, h5, h6, h7⟩ := bpRun_rule _ cols0 d eps gapTol maxIter maxNodes o ho
+  obtain ⟨_, h2, h3, h4, h5, h6, h7⟩ := bpRun_rule _ cols0 d eps gapTol maxIter maxNodes stop o ho
   obtain ⟨p, hp, ht⟩ := h2 (Or.inl hs)
   obtain ⟨q, hq⟩ := h7 (Or.inl hs)
   have hval : q = dotQ o.rootDuals d := by
@@ -487,8 +488,8 @@ case of an integral root LP, `rolls ≤ ⌈root LP value − eps⌉` — then th
 Uses the actual status rule (`root_converged`, `lower_bound`, gap test) and the exact identity
 `root LP value = root duals · d`. -/
 theorem bp_mirror_optimal_of_duals (W : Nat) (sizes d : List Nat) (maxIter maxNodes : Nat) (eps gapTol : Rat)
-    (hpos : ∀ s ∈ sizes, 0 < s) (heps : 0 ≤ eps) (htol1 : gapTol ≤ 1) :
-    let o := bpCuttingStock W sizes d maxIter maxNodes eps gapTol
+    (stop : Nat → Bool) (hpos : ∀ s ∈ sizes, 0 < s) (heps : 0 ≤ eps) (htol1 : gapTol ≤ 1) :
+    let o := bpCuttingStock W sizes d maxIter maxNodes eps gapTol stop
     o.status = "OPTIMAL" → gapTol * (o.total : Rat) ≤ 1 →
     (∀ p, o.plan = some p → checkPlan (fitsB W sizes) d p o.total = true) →
     dualFeasible W sizes o.rootDuals = true →
@@ -496,15 +497,15 @@ theorem bp_mirror_optimal_of_duals (W : Nat) (sizes d : List Nat) (maxIter maxNo
     IsMinRolls (Fits W sizes) d o.total := by
   intro o hs htol2 hchk hy hside
   exact bp_optimal_core (Fits W sizes) (csPricer W sizes eps) (initPats W sizes d) d eps gapTol maxIter maxNodes
-    heps htol1 o rfl hs htol2
+    stop heps htol1 o rfl hs htol2
     (fun p hp => ((plan_checker_cs W sizes d p o.total).1 (hchk p hp)).1)
     (fun plan' hv' => dual_bound W sizes d o.rootDuals plan' hpos hy hv') hside
 
 open Mirror in
 /-- The same for an explicit column set (custom pricing). -/
 theorem bp_custom_mirror_optimal_of_duals (cols init : List Pat) (d : List Nat) (maxIter maxNodes : Nat)
-    (eps gapTol : Rat) (heps : 0 ≤ eps) (htol1 : gapTol ≤ 1) :
-    let o := bpCustom cols init d maxIter maxNodes eps gapTol
+    (eps gapTol : Rat) (stop : Nat → Bool) (heps : 0 ≤ eps) (htol1 : gapTol ≤ 1) :
+    let o := bpCustom cols init d maxIter maxNodes eps gapTol stop
     o.status = "OPTIMAL" → gapTol * (o.total : Rat) ≤ 1 →
     (∀ p, o.plan = some p → checkPlan (inColsB cols) d p o.total = true) →
     dualFeasibleCols cols o.rootDuals = true →
@@ -512,7 +513,7 @@ theorem bp_custom_mirror_optimal_of_duals (cols init : List Pat) (d : List Nat) 
     IsMinRolls (InCols cols) d o.total := by
   intro o hs htol2 hchk hy hside
   exact bp_optimal_core (InCols cols) (colsPricer cols eps) init d eps gapTol maxIter maxNodes
-    heps htol1 o rfl hs htol2
+    stop heps htol1 o rfl hs htol2
     (fun p hp => ((plan_checker_cols cols d p o.total).1 (hchk p hp)).1)
     (fun plan' hv' => dual_bound_cols cols d o.rootDuals plan' hy hv') hside
 
@@ -527,7 +528,7 @@ example : IsMinRolls (InCols [[2, 0], [0, 2], [1, 1]]) [3, 2] 3 := by
         | none => false) = true ∧
       dualFeasibleCols [[2, 0], [0, 2], [1, 1]] o.rootDuals = true := by decide +kernel
   have := bp_custom_mirror_optimal_of_duals [[2, 0], [0, 2], [1, 1]] [[2, 0], [0, 2]] [3, 2] 1000 100
-    Solvor.Gen.Cut.bpEps Solvor.Gen.Cut.bpGapTol (by decide +kernel) (by decide +kernel) h.1
+    Solvor.Gen.Cut.bpEps Solvor.Gen.Cut.bpGapTol (fun _ => false) (by decide +kernel) (by decide +kernel) h.1
     (by rw [h.2.1]; decide +kernel)
     (fun p hp => by have := h.2.2.2.1; rw [hp] at this; exact this) h.2.2.2.2
     (fun hri => by rw [h.2.2.1] at hri; cases hri)
